@@ -148,11 +148,28 @@ ref::Pos gen_endgame(Tape& t, Report* rep, std::string* label)
             }
             put('k', strongWhite, s);
         }
+        // queen versus rook and pawns: the rook defended by a pawn that the king defends (fortress branch)
+        bool rookPlaced = false;
+        if (W.find('R') != std::string::npos && W.find('P') != std::string::npos && t.chance(1, 2))
+        {
+            for (int s = 0; s < 64 && !rookPlaced; ++s)
+                if (p.b[s] == (strongWhite ? 'p' : 'P'))
+                {
+                    int r = ref::RK(s) + (strongWhite ? -1 : 1);  // the weak side's pawns attack toward the strong side's home
+                    for (int df = -1; df <= 1 && !rookPlaced; df += 2)
+                        if (ref::on_board(ref::FL(s) + df, r) && p.b[ref::SQ(ref::FL(s) + df, r)] == '.')
+                        {
+                            put('r', !strongWhite, ref::SQ(ref::FL(s) + df, r));
+                            rookPlaced = true;
+                        }
+                }
+        }
         // other pieces: near the pawns half of the time (blockades, defended rooks, bishops on the long lines)
         for (int side = 0; side < 2; ++side)
             for (char c : (side == 0 ? S : W))
             {
                 if (c == 'P') continue;
+                if (c == 'R' && side == 1 && rookPlaced) continue;
                 int s = (target >= 0 && t.chance(1, 2)) ? near_square(target) : any_square();
                 if (s < 0) s = any_square();
                 if (s < 0) continue;
